@@ -80,6 +80,8 @@ func runC03(c *Ctx) {
 	ruleSizeArithmetic(c, "R3.5")
 	ruleDialectData(c, "R3.6", true)
 	ruleStrings(c, "R3.7")
+	r.Rule("R3.8", "cursor discipline (= R4.4): in ReadWriter.Read / Write the byte cursor advances only by the count returned by readValue / writeValue for that cursor, so every field byte goes through the per-type codec of R3.2 (no bulk copy or side path)", 2)
+	ruleCursor(c, "R3.8")
 }
 
 // R3.1
@@ -251,6 +253,20 @@ func ruleValueCodecs(c *Ctx, rule string) {
 					}
 					if (typ == "float32" && (n == "math.Float32frombits" || n == "math.Float32bits")) || (typ == "float64" && (n == "math.Float64frombits" || n == "math.Float64bits")) {
 						floatOK = true
+					}
+					// enum values are unsigned 64-bit in memory and reduced to their wire width: the decoded wire value is
+					// zero-extended, never passed through a signed type (int8(0x85) → 0xFFFFFFFFFFFFFF85)
+					if kind == "enum" && n == "(reflect.Value).SetUint" && len(call.Call.Args) == 2 {
+						for v := call.Call.Args[1]; v != nil; {
+							cv, isCv := v.(*ssa.Convert)
+							if !isCv {
+								break
+							}
+							if bt, isB := cv.Type().Underlying().(*types.Basic); isB && bt.Info()&types.IsInteger != 0 && bt.Info()&types.IsUnsigned == 0 {
+								probs = append(probs, "the enum value read from the wire is sign-extended through "+typeStr(cv.Type())+": a wire value with the top bit set decodes to a 64-bit value that is not the wire value (enum values must equal their wire-width value)")
+							}
+							v = cv.X
+						}
 					}
 				}
 			}
@@ -579,7 +595,30 @@ func ruleSizeArithmetic(c *Ctx, rule string) {
 	var probs []string
 	n := 0
 	// bound tests available: If on `wide > K` / `wide < K` with an error return on the failing edge
+	// the functions whose arithmetic feeds the sizes: Initialize and every function of the package it calls, transitively
+	// (a size helper extracted from Initialize is part of the computation)
+	scope := []*ssa.Function{ini}
+	inScope := map[*ssa.Function]bool{ini: true}
+	for i := 0; i < len(scope); i++ {
+		for _, in := range allInstrs(scope[i]) {
+			if ci, ok := in.(ssa.CallInstruction); ok {
+				if f := ci.Common().StaticCallee(); f != nil && f.Blocks != nil && f.Pkg == ini.Pkg && !inScope[f] {
+					inScope[f] = true
+					scope = append(scope, f)
+				}
+			}
+		}
+		for _, af := range scope[i].AnonFuncs {
+			if !inScope[af] {
+				inScope[af] = true
+				scope = append(scope, af)
+			}
+		}
+	}
 	boundOn := func(v ssa.Value, at *ssa.BasicBlock) bool {
+		if at.Parent() != ini {
+			return false
+		}
 		for _, iff := range ifsIn(ini) {
 			b, ok := iff.Cond.(*ssa.BinOp)
 			if !ok || (b.Op != token.GTR && b.Op != token.GEQ) {
@@ -601,7 +640,11 @@ func ruleSizeArithmetic(c *Ctx, rule string) {
 		}
 		return false
 	}
-	for _, in := range allInstrs(ini) {
+	var sizeInstrs []ssa.Instruction
+	for _, f := range scope {
+		sizeInstrs = append(sizeInstrs, allInstrs(f)...)
+	}
+	for _, in := range sizeInstrs {
 		switch x := in.(type) {
 		case *ssa.BinOp:
 			if (x.Op == token.MUL || x.Op == token.ADD) && intWidth(x.Type()) == 1 {
